@@ -67,6 +67,17 @@ def slots(d):
     return out
 
 
+def structure(d):
+    """identity of everything structural in a tree: the section objects and the lists holding
+    them (`subsections`, iteration order) — none of it may change when the tree is only observed"""
+    out = [id(d.preamble_section), id(d.meta_section), tuple(id(c) for c in d.changes), tuple(id(x) for x in d)]
+    for c in d.changes:
+        out += [id(c.preamble_section), id(c.meta_section), tuple(id(f) for f in c.files), tuple(id(x) for x in c)]
+        for f in c.files:
+            out += [id(f.meta_section), id(f.diff_section), tuple(id(x) for x in f.subsections), tuple(id(x) for x in f)]
+    return out
+
+
 def canon_ids(trees_ids):
     ren = {}
     out = []
@@ -128,6 +139,7 @@ class World(object):
             section_at(self.trees[int(t)], p).meta = d
         elif k in 'PQ':
             d = self.trees[int(op[1:])]
+            st0 = structure(d)
             try:
                 data = self.serialise(d)
                 if k == 'Q':
@@ -136,6 +148,8 @@ class World(object):
                 new = self.reader.parse(io.BytesIO(data))
             except Exception:   # noqa  (tree not serialisable: the operation is skipped)
                 return False, bad
+            if structure(d) != st0:
+                bad.append('serialising a tree changed its structure (section objects / subsections lists)')
             self.trees.append(new)
         elif k == 'R':
             t, p = op[1:].split('.')
@@ -143,6 +157,7 @@ class World(object):
             section_at(self.trees[int(t)], p).preamble = 'note %d\nsecond line\n' % self.n
         elif k == 'O':
             d = self.trees[int(op[1:])]
+            st0 = structure(d)
             before = domadapt.canon_tree(domadapt.dump(d))
             try:
                 b1 = self.serialise(d)
@@ -158,6 +173,9 @@ class World(object):
                 repr(c)
             if domadapt.canon_tree(domadapt.dump(d)) != before:
                 bad.append('an observer (to_bytes / == / repr) changed the tree')
+            if structure(d) != st0:
+                bad.append('an observer (to_bytes / == / repr) changed the structure of the tree '
+                           '(section objects / subsections lists)')
         elif k == 'X':
             t, p, sl = op[1:].split('.')
             sec = section_at(self.trees[int(t)], p)
